@@ -6,6 +6,7 @@ import (
 	"runtime"
 	"strings"
 	"sync"
+	"sync/atomic"
 	"testing"
 
 	textwire "github.com/textwire/textwire/v2"
@@ -78,9 +79,36 @@ func c15Ops(base []histOp) []histOp {
 		histOp{Kind: "evalstring", Src: "{{ name.upper().lower().capitalize().reverse().repeat(3).truncate(5, '..') }} {{ 'a,b,c'.split(',').reverse().append('d').prepend('z').slice(1, 4) }} {{ 3.5.ceil() + 2.2.floor() + 7.abs() }} {{ 12.decimal() }} {{ '  x '.trim().len() }} {{ items.len() + name.first().len() }} {{ true.then('y', 'n') }}", Data: d},
 		histOp{Kind: "evalstring", Src: "{{ user.name }} {{ user.boss.name }} @each(t in user.tags){{ t }}@end {{ n + 1 }} {{ m.p }}", Data: dp},
 		histOp{Kind: "string", Name: "plain", Data: dp}, histOp{Kind: "response", Name: "failing", Data: dp},
+		// @dump of a value nested deeper than anything dumped in this process before (see c15Run)
+		histOp{Kind: "deep-dump"}, histOp{Kind: "deep-dump"},
 		histOp{Kind: "string", Name: "missing/one", Data: d}, histOp{Kind: "response", Name: "missing/two", Data: d}, histOp{Kind: "string", Name: "missing/three", Data: nil},
 		histOp{Kind: "response", Name: "missing/four", Data: nil}, histOp{Kind: "string", Name: "layouts/main", Data: d},
 	)
+}
+
+var c15DeepDumps int64
+
+type deepDump struct {
+	depth int
+	got   string
+	g, k  int
+}
+
+// c15DeepDump dumps a map nested depth levels deep through the string API.
+func c15DeepDump(depth int) string {
+	var v any = "leaf"
+	for i := 0; i < depth; i++ {
+		if i%2 == 0 {
+			v = map[string]any{"k": v}
+		} else {
+			v = []any{v}
+		}
+	}
+	out, err := textwire.EvaluateString("<h1>{{ title }}</h1>@dump(x)", map[string]any{"title": depth, "x": v})
+	if err != nil {
+		return "error: " + err.Error()
+	}
+	return out
 }
 
 func c15Run(p concPlan) string {
@@ -110,6 +138,7 @@ func c15Run(p concPlan) string {
 	for rep := 0; rep < reps; rep++ {
 		var wg sync.WaitGroup
 		var mu sync.Mutex
+		var deep []deepDump
 		failure := ""
 		start := make(chan struct{})
 		for g, ops := range p.Goroutines {
@@ -123,6 +152,22 @@ func c15Run(p concPlan) string {
 					}
 					oi %= len(cs.Ops)
 					op := cs.Ops[oi]
+					if op.Kind == "deep-dump" {
+						// the first calls of a process to dump a value of this depth happen here, several at
+						// once; what each must give is computed after the goroutines are done
+						depth := 20
+						if n := atomic.AddInt64(&c15DeepDumps, 1); n <= 150 {
+							depth = 16 + int(n)
+						}
+						var got string
+						if pi := harness.Safe(func() { got = c15DeepDump(depth) }); pi != nil {
+							got = "panic: " + pi.Value
+						}
+						mu.Lock()
+						deep = append(deep, deepDump{depth, got, g, k})
+						mu.Unlock()
+						continue
+					}
 					if op.Kind == "evalstring" && (g+k+rep)%2 == 0 {
 						// a source text no call has evaluated before (the comment renders to nothing)
 						op.Src = fmt.Sprintf("{{-- %d.%d.%d --}}", rep, g, k) + op.Src
@@ -147,6 +192,12 @@ func c15Run(p concPlan) string {
 		if failure != "" {
 			return failure
 		}
+		for _, dd := range deep {
+			if alone := c15DeepDump(dd.depth); alone != dd.got {
+				return fmt.Sprintf("goroutine %d, call %d @dump of a value nested %d deep: result differs from the same call run alone: %s", dd.g, dd.k, dd.depth, diffAt(alone, dd.got))
+			}
+		}
+		deep = nil
 	}
 	return ""
 }
@@ -175,7 +226,7 @@ func c15NonTrivial(p concPlan, nOps int) bool {
 
 func TestC15_Plans(t *testing.T) {
 	c := harness.New(t, "C15", "plans",
-		"concurrency plans: G in 2..16 goroutines, each a list of 5..40 operations from {String ok / failing / not found, Response ok / failing (built-in and custom error page, debug on/off), EvaluateString ok / failing (with registered custom functions), EvaluateFile} over a loaded directory with layout, component, loops and objects, each with its own data map (small, with pointers, and two with 600 / 450 long strings whose pages render to tens of kilobytes); every other EvaluateString call evaluates a source text no call has seen before (a unique leading comment); GOMAXPROCS in {2, 4, 16}; runtime.Gosched() noise at generated points; each plan repeated. Built with the race detector (GORACE=halt_on_error=1): any reported race ends the run and is reported with the plan; every call's result must equal the result of the same call run alone beforehand. Plans are drawn deterministically from the seed (rapid generators, Example-style) because a schedule-dependent failure cannot be shrunk. Non-trivial: >= 2 goroutines of which one performs a failing Response/String and another an EvaluateString/EvaluateFile. Distinct by hash of the plan.")
+		"concurrency plans: G in 2..16 goroutines, each a list of 5..40 operations from {String ok / failing / not found, Response ok / failing (built-in and custom error page, debug on/off), EvaluateString ok / failing (with registered custom functions), EvaluateFile} over a loaded directory with layout, component, loops and objects, each with its own data map (small, with pointers, and two with 600 / 450 long strings whose pages render to tens of kilobytes); every other EvaluateString call evaluates a source text no call has seen before (a unique leading comment); @dump of values nested deeper (17..166 levels) than anything the process has dumped before, compared afterwards with the same call alone; GOMAXPROCS in {2, 4, 16}; runtime.Gosched() noise at generated points; each plan repeated. Built with the race detector (GORACE=halt_on_error=1): any reported race ends the run and is reported with the plan; every call's result must equal the result of the same call run alone beforehand. Plans are drawn deterministically from the seed (rapid generators, Example-style) because a schedule-dependent failure cannot be shrunk. Non-trivial: >= 2 goroutines of which one performs a failing Response/String and another an EvaluateString/EvaluateFile. Distinct by hash of the plan.")
 	defer c.Finish()
 	nOps := len(c15Ops(c16Trees()[0].Ops))
 	gen := rapid.Custom(func(rt *rapid.T) concPlan {
